@@ -261,6 +261,13 @@ Proof.
   - apply diff_update_single_l.
 Qed.
 
+Lemma ast_eqb_eq : forall a b, ast_eqb a b = true <-> a = b.
+Proof.
+  induction a as [|x a IH]; intros [|y b]; cbn [ast_eqb]; split; intros H; try discriminate; try reflexivity.
+  - apply andb_prop in H. destruct H as [H1 H2]. apply Z.eqb_eq in H1. apply IH in H2. now subst.
+  - injection H as -> ->. rewrite Z.eqb_refl. cbn. now apply IH.
+Qed.
+
 (** * the HIR follows the AST *)
 Section Align.
   Variable lower : chunk -> lowered.
@@ -271,7 +278,7 @@ Section Align.
   (** every HIR chunk is the lowering of the AST chunk at the same index *)
   Definition aligned (a : ast) (h : hir) : Prop := map lower a = map LSome h.
 
-  (** the guard of the known finding C29-quick-check-panics: lowering a chunk does not panic *)
+  (** lowering a chunk does not panic (the checker's own property, C07) *)
   Definition lower_total : Prop := forall c, lower c <> LPanic.
 
   Lemma map_upd_add {A B} (f : A -> B) i x l : map f (upd_add i x l) = upd_add i (f x) (map f l).
@@ -350,6 +357,7 @@ Section Align.
     destruct (e_ast e) as [old|]; [|intros [= <-]; auto].
     destruct (diff old (ast_of (f_text D s))) as [d|]; [|discriminate].
     destruct (is_nop d); [intros [= <-]; auto|].
+    destruct (negb (ast_eqb (update d old) (ast_of (f_text D s)))); [intros [= <-]; auto|].
     destruct (hirdiff_new lower d) as [ohd|]; [|discriminate].
     match goal with |- context [match ?p with pair _ _ => _ end] => destruct p as [a1 h1] end.
     match goal with |- context [match ?p with Ok _ => _ | Panic => _ end] => destruct p as [h2|] end; [|discriminate].
@@ -363,6 +371,7 @@ Section Align.
     destruct (e_ast e) as [old|]; [|discriminate].
     destruct (diff old (ast_of (f_text D s))) as [d|] eqn:E; [|now apply diff_no_panic in E].
     destruct (is_nop d); [discriminate|].
+    destruct (negb (ast_eqb (update d old) (ast_of (f_text D s)))); [discriminate|].
     destruct (hirdiff_new lower d) as [ohd|] eqn:Hn; [|now apply hirdiff_new_no_panic in Hn].
     match goal with |- context [match ?p with pair _ _ => _ end] => destruct p as [a1 h1] end.
     destruct h1 as [h|]; [|discriminate].
@@ -370,32 +379,58 @@ Section Align.
     now apply hfix_no_panic in F.
   Qed.
 
-  (** one changed chunk, lowering succeeds: afterwards the cached AST is the AST of the text and the HIR follows *)
-  Lemma quick_check_single_l s old hs :
+  (** when lowering succeeds: afterwards the cached AST is either untouched or exactly the AST of the text the server
+      saw (the latter whenever at most one chunk changed), and the HIR follows it *)
+  Lemma quick_check_exact_l s old hs :
     f_mod D s = Some {| e_ast := Some old; e_hir := Some hs |} ->
     aligned old hs ->
-    edit1 old (ast_of (f_text D s)) ->
     (forall c, In c (ast_of (f_text D s)) -> exists h, lower c = LSome h) ->
-    exists s' hs', quick_check s = Ok s' /\
-      f_mod D s' = Some {| e_ast := Some (ast_of (f_text D s)); e_hir := Some hs' |} /\
-      aligned (ast_of (f_text D s)) hs'.
+    exists s' a' hs', quick_check s = Ok s' /\
+      f_mod D s' = Some {| e_ast := Some a'; e_hir := Some hs' |} /\
+      aligned a' hs' /\
+      (a' = old \/ a' = ast_of (f_text D s)) /\
+      (edit1 old (ast_of (f_text D s)) -> a' = ast_of (f_text D s)).
   Proof.
-    intros Hm Ha He Hl.
-    destruct (diff_update_single_l _ _ He) as [d [Hd Hu]].
-    unfold Model.quick_check. rewrite Hm. cbn [e_ast e_hir]. rewrite Hd.
+    intros Hm Ha Hl.
+    unfold Model.quick_check. rewrite Hm. cbn [e_ast e_hir].
+    destruct (diff old (ast_of (f_text D s))) as [d|] eqn:Hd; [|now apply diff_no_panic in Hd].
+    assert (He1 : edit1 old (ast_of (f_text D s)) -> update d old = ast_of (f_text D s)).
+    { intros He. destruct (diff_update_single_l _ _ He) as [d' [Hd' Hu]]. congruence. }
     destruct (is_nop d) eqn:N.
-    - destruct d; try discriminate. cbn [update] in Hu. subst old.
-      exists s, hs. rewrite Hm. auto.
-    - assert (Hn : exists hd, hirdiff_new lower d = Ok (Some hd)).
-      { pose proof (diff_carries _ _ _ Hd) as Hc.
-        destruct d as [i | i c | i c |]; cbn [hirdiff_new]; eauto.
-        - destruct (Hl c) as [h L]; [eapply nth_error_In; eauto|]. rewrite L. eauto.
-        - destruct (Hl c) as [h L]; [eapply nth_error_In; eauto|]. rewrite L. eauto. }
-      destruct Hn as [hd Hn]. rewrite Hn.
-      pose proof (hupdate_aligned _ _ _ _ Ha Hn) as Ha2. rewrite Hu in Ha2.
-      rewrite (hfix_aligned _ _ Ha2).
-      eexists. exists (hupdate hd hs). split; [reflexivity|]. cbn [f_mod].
-      rewrite Hu. auto.
+    - exists s, old, hs. rewrite Hm. repeat split; auto.
+      intros He. apply He1 in He. destruct d; try discriminate. now cbn [update] in He.
+    - destruct (ast_eqb (update d old) (ast_of (f_text D s))) eqn:Q; cbn [negb].
+      + apply ast_eqb_eq in Q.
+        assert (Hn : exists hd, hirdiff_new lower d = Ok (Some hd)).
+        { pose proof (diff_carries _ _ _ Hd) as Hc.
+          destruct d as [i | i c | i c |]; cbn [hirdiff_new]; eauto.
+          - destruct (Hl c) as [h L]; [eapply nth_error_In; eauto|]. rewrite L. eauto.
+          - destruct (Hl c) as [h L]; [eapply nth_error_In; eauto|]. rewrite L. eauto. }
+        destruct Hn as [hd Hn]. rewrite Hn.
+        pose proof (hupdate_aligned _ _ _ _ Ha Hn) as Ha2. rewrite Q in Ha2.
+        rewrite (hfix_aligned _ _ Ha2).
+        eexists. exists (ast_of (f_text D s)), (hupdate hd hs). split; [reflexivity|]. cbn [f_mod].
+        rewrite Q. auto.
+      + exists s, old, hs. rewrite Hm. repeat split; auto.
+        intros He. apply He1 in He. apply ast_eqb_eq in He. congruence.
+  Qed.
+
+  (** whatever lowering does: quick_check_file leaves the cached AST alone or makes it the AST of the text it saw *)
+  Lemma quick_check_ast s s' : quick_check s = Ok s' ->
+    f_mod D s' = f_mod D s \/
+    exists e', f_mod D s' = Some e' /\ (e_ast e' = Some (ast_of (f_text D s)) \/
+                                         exists e, f_mod D s = Some e /\ e_ast e' = e_ast e).
+  Proof.
+    unfold Model.quick_check. destruct (f_mod D s) as [e|] eqn:Hm; [|intros [= <-]; auto].
+    destruct (e_ast e) as [old|] eqn:Ea; [|intros [= <-]; auto].
+    destruct (diff old (ast_of (f_text D s))) as [d|]; [|discriminate].
+    destruct (is_nop d); [intros [= <-]; auto|].
+    destruct (ast_eqb (update d old) (ast_of (f_text D s))) eqn:Q; cbn [negb]; [|intros [= <-]; auto].
+    apply ast_eqb_eq in Q.
+    destruct (hirdiff_new lower d) as [ohd|]; [|discriminate].
+    destruct ohd as [hd|]; destruct (e_hir e) as [h|];
+      repeat match goal with |- context [match ?p with Ok _ => _ | Panic => _ end] => destruct p; [|discriminate] end;
+      intros [= <-]; right; eexists; split; try reflexivity; cbn [e_ast]; rewrite ?Q; eauto.
   Qed.
 
   (** * convergence *)
@@ -516,6 +551,69 @@ Section Align.
     destruct (step b s ev); [apply IH|reflexivity].
   Qed.
 
+  (** the cached AST is always the AST of a text the server has seen (never a mixture) *)
+  Definition texts_of (evs : list event) : list text :=
+    flat_map (fun ev => match ev with EChange _ t => [t] | _ => [] end) evs.
+
+  Definition cache_inv (s : fstate D) (seen : list text) : Prop :=
+    In (f_text D s) seen /\
+    exists e t, f_mod D s = Some e /\ e_ast e = Some (ast_of t) /\ In t seen.
+
+  Lemma cache_inv_mono s seen more : cache_inv s seen -> cache_inv s (seen ++ more).
+  Proof.
+    intros [H1 [e [t [H2 [H3 H4]]]]]. split; [apply in_or_app; auto|].
+    exists e, t. repeat split; auto. apply in_or_app; auto.
+  Qed.
+
+  Lemma cache_inv_check_file s seen : In (f_text D s) seen -> cache_inv (check_file s) seen.
+  Proof.
+    intros H. split; [exact H|]. eexists. exists (f_text D s). cbn. repeat split; auto.
+  Qed.
+
+  Lemma cache_inv_step b s ev s' seen : cache_inv s seen -> step b s ev = Ok s' ->
+    cache_inv s' (seen ++ texts_of [ev]).
+  Proof.
+    intros Hi. destruct ev as [tr tx | dp |]; cbn [Model.step texts_of flat_map app].
+    - destruct (if tr then quick_check s else Ok s) as [s1|] eqn:E; [|discriminate]. intros [= <-].
+      assert (H1 : cache_inv s1 seen).
+      { destruct tr; [|injection E as <-; exact Hi].
+        destruct Hi as [Ht [e [t [Hm [Ha Hs]]]]].
+        destruct (quick_check_frame _ _ E) as [F1 _].
+        split; [now rewrite F1|].
+        destruct (quick_check_ast _ _ E) as [Q|[e' [Q [Q2|[e0 [Q3 Q4]]]]]].
+        - exists e, t. rewrite Q. auto.
+        - exists e', (f_text D s). auto.
+        - exists e', t. rewrite Hm in Q3. injection Q3 as <-. rewrite Q4. auto. }
+      destruct H1 as [_ [e [t [Hm [Ha Hs]]]]]. split; cbn [f_text f_mod].
+      + apply in_or_app. right. now left.
+      + exists e, t. repeat split; auto. apply in_or_app. auto.
+    - rewrite app_nil_r. unfold recheck. destruct (change_kind b s dp) as [k|]; [|discriminate].
+      destruct Hi as [Ht Hc].
+      destruct k; intros [= <-]; try (now apply cache_inv_check_file). split; auto.
+    - rewrite app_nil_r. intros [= <-]. destruct Hi as [Ht _]. now apply cache_inv_check_file.
+  Qed.
+
+  Lemma texts_of_cons ev evs : texts_of (ev :: evs) = texts_of [ev] ++ texts_of evs.
+  Proof. unfold texts_of. cbn [flat_map]. now rewrite app_nil_r. Qed.
+
+  Lemma cache_inv_run b : forall evs s s' seen, cache_inv s seen -> run b s evs = Ok s' ->
+    cache_inv s' (seen ++ texts_of evs).
+  Proof.
+    induction evs as [|ev evs IH]; intros s s' seen Hi; cbn [Model.run].
+    - intros [= <-]. cbn. now rewrite app_nil_r.
+    - destruct (step b s ev) as [s1|] eqn:E; [|discriminate]. intros H.
+      rewrite texts_of_cons, app_assoc. eapply IH; [|exact H]. eapply cache_inv_step; eauto.
+  Qed.
+
+  Lemma cache_exact_l b t0 d0 evs s : run b (open D check full_hir t0 d0) evs = Ok s ->
+    exists e t, f_mod D s = Some e /\ e_ast e = Some (ast_of t) /\ In t (t0 :: texts_of evs).
+  Proof.
+    intros H.
+    assert (Hi : cache_inv (open D check full_hir t0 d0) [t0]).
+    { apply cache_inv_check_file. now left. }
+    destruct (cache_inv_run _ _ _ _ _ Hi H) as [_ Hx]. exact Hx.
+  Qed.
+
   Definition is_recheck (ev : event) : Prop := match ev with ESave _ | EPoll => True | EChange _ _ => False end.
 
   Lemma convergence_l t0 d0 evs last :
@@ -568,7 +666,7 @@ Proof.
   split; eexists; (split; [vm_compute; reflexivity|]); vm_compute; discriminate.
 Qed.
 
-(** the known finding in the model: a lowering that panics on one chunk makes the didChange handler panic *)
+(** a lowering that panics on one chunk makes the didChange handler panic *)
 Definition wp_lower (c : chunk) : lowered := if c =? 2 then LPanic else LSome c.
 
 Lemma lower_panic_refuted_l :
